@@ -44,7 +44,7 @@ CHECKS = {
             "differential testing both ways against docs/xml.md: an independent XML parser (expat) + value decoder for the writer, an independent document generator for the reader; proptest-generated DOMs and document plans",
             "Writer: every document rbx_xml emits for a generated forest is parsed by Python's expat and decoded by a value decoder written from docs/xml.md (floats decoded exactly from their decimal text); "
             "MUST-level structure and the recovered values are compared with the spec. Reader: generated logical DOMs are rendered under generated document plans by a generator written from docs/xml.md and must "
-            "decode to the DOM they describe. The writer is also judged on a fixed list of large documents (values over 64 KiB / 1 MiB, 257-entry tables, 70 000-character names, columns of empty values). Raw CR in text and non-finite CFrame components spelled inf/NaN are open findings.",
+            "decode to the DOM they describe. The writer is also judged on a fixed list of large documents (values over 64 KiB / 1 MiB, 257-entry tables, 70 000-character names, columns of empty values); the reader is also fed decimals of 80+ digits just above / below the exact midpoint of two neighbouring f32 values (as <float> and as Vector3 / UDim / Color3 components, plain and with an exponent), whose nearest f32 is known by construction. Raw CR in text and non-finite CFrame components spelled inf/NaN are open findings.",
             "trusts: docs/xml.md (MUST-level rules only), Python's xml.etree/expat as the conforming XML parser",
             "DESIGN.md 2/C05"),
     "C06": ("exploration",
@@ -56,7 +56,7 @@ CHECKS = {
             "DESIGN.md 2/C06"),
     "C07": ("exploration",
             "metamorphic testing (construction variants, process re-execution, save history incl. injected failed saves, re-save fixed point) on proptest-generated DOMs",
-            "The same logical tree built through different insert sequences, property insertion orders and fresh referents (incl. nodes carrying several spellings of one property, and property maps grown and shrunk beforehand) must serialize to identical bytes (binary x3, XML); a tree saved before and after other saves on "
+            "The same logical tree built through different insert sequences, property insertion orders and fresh referents (incl. nodes carrying several spellings of one property, and property maps grown and shrunk beforehand; also as parentless trees in a DOM without a root) must serialize to identical bytes (binary x3, XML); a tree saved before and after other saves on "
             "the same thread - successful ones and ones failing inside attribute encoding, on a type mismatch or by an injected sink failure - must give the same bytes; batches are re-serialized in "
             "freshly started processes (own hash seeds) and compared; save(load(save(load(F)))) must equal save(load(F)) for own and foreign files.",
             "trusts: process re-execution as the source of different RandomState seeds",
@@ -82,13 +82,13 @@ CHECKS = {
             "model-based (stateful) property testing: lock-step diff of the real DOMs against a reference model after every operation",
             "Same histories as C09; after every step every DOM is compared instance by instance (referent, parent, child order, name, class, properties, instance set) "
             "with a plain ordered-tree model executing the documented meaning of the step (a UniqueId that changes without a collision is reported here as well as under C12). Builders are spelled through every builder API variant; start trees of up to 12 001 (thorough 70 001) instances; "
-            "transfer / transfer_within on a chain of 100 000 nested instances in a child process. Rootless sub-check: histories over a rooted DOM and a WeakDom::default() that holds parentless trees (inserts under the null parent, transfers in and out, clones into it, clone_within on it, destroy), diffed against a second, separate reference model.",
+            "transfer / transfer_within on a chain of 100 000 nested instances in a child process. Every documented panic (insert under / destroy / transfer / transfer_within / clone of a referent that does not exist), provoked on throw-away DOMs and caught, may precede any step. Rootless sub-check: histories over a rooted DOM and a WeakDom::default() that holds parentless trees (inserts under the null parent, transfers in and out, clones into it, clone_within on it, destroy), diffed against a second, separate reference model.",
             "trusts: the reference model (about 300 lines, documented semantics only)",
             "DESIGN.md 2/C09-C12"),
     "C11": ("exploration",
             "model-based property testing of clone operations inside generated histories (isomorphism + three-way Ref rule oracle)",
             "Every clone_within / clone_into_external / clone_multiple_into_external inside the C09 histories is bound to its source by a parallel walk and checked for "
-            "fresh referents, parentless roots, identical shape/order/names/classes/properties, Refs rewritten by the documented three-way rule, and an untouched source. The three clone operations also run on a chain of 100 000 nested instances in a child process. Rootless sub-check: clones into / within / out of a DOM without a root that already holds instances, with Ref properties set across both DOMs (own small reference model).",
+            "fresh referents, parentless roots, identical shape/order/names/classes/properties, Refs rewritten by the documented three-way rule, and an untouched source. The three clone operations also run on a chain of 100 000 nested instances in a child process. Rootless sub-check: clones into / within / out of a DOM without a root that already holds instances, with Ref properties set across both DOMs (own small reference model). Ref-fans list: one clone call of each kind over k pointers with k distinct outside targets, half of them in the destination, k around every power of two up to 4 097 (thorough 65 537).",
             "trusts: the reference model's three-way rule taken from the doc comments of clone_into_external / clone_multiple_into_external",
             "DESIGN.md 2/C09-C12"),
     "C12": ("exploration",
@@ -148,7 +148,7 @@ CHECKS = {
             "(bytes, ==, hash, shared buffer), and at quiescence the table must hold no entry of the case. All schedules of all pairs of 2-operation (quick) / 3-operation and triples of "
             "2-operation (thorough) programs are enumerated exhaustively. Free-running part: 16 threads churn (create and drop) four contents so that reference counts cross zero under contention, with checker threads comparing "
             "buffers of back-to-back handles, panics captured per thread and a poisoned-table probe; then a mixed new/clone/drop phase. Single-threaded API sequences (new / clone / clone_from / assignment / drop / Vec::clone_from, "
-            "optionally next to 1000-2600 other live contents) are generated and checked with the same oracles. Content-sizes list: for every length around each power of two from 2^8 to 2^22 (thorough 2^26), eight contents differing in one byte or one byte of length are alive together and must stay distinct, share buffers per content and leave no table entry.",
+            "optionally next to 1000-2600 other live contents) are generated and checked with the same oracles. Content-sizes list: for every length around each power of two from 2^8 to 2^22 (thorough 2^26), eight contents differing in one byte or one byte of length are alive together and must stay distinct, share buffers per content and leave no table entry. The free-running part ends with paired last releases: 8 thread pairs drop the last two handles of a never-reused content at the same instant (spin rendezvous, swept skew; 40 000 / 1 000 000 rounds per pair) and the table must hold no entry for it afterwards.",
             "trusts: std's Arc/Mutex; schedules are controlled at exactly the granularity the property names; the free-running part is a stress sample",
             "DESIGN.md 2/C18"),
 }
